@@ -240,17 +240,30 @@ Fixpoint count_ops (b : nat) (file : path) (p0 : nat) (sched : list (nat * csig)
    it cannot include a job whose mkdir comes after the last call of the len(project). *)
 Definition is_len_op (c : case_C12) (o : docop) : bool := negb (d_set o) && path_eqb (d_file o) (q_ws c).
 
-(* new job ids whose directory was created among the first n positions *)
+(* new JOBS whose directory came into being among the first n positions: a directory of the workspace named
+   by the id of a job that some actor REQUESTED (the only jobs there can be), made by mkdir under that name or
+   moved into place by a rename onto that name.  A directory under any other name — however id-shaped, e.g. a
+   staging directory named by 32 hex digits — is not a job, and len(project) must not count it (seeded trial
+   C12-11: with one job requested by two initialisers a process saw len(project) = 2). *)
+Definition makes_job_dir (c : case_C12) (s : csig) : option str :=
+  let target := if ckind_eqb (sg_kind s) SgMkdir then Some (sg_p s)
+                else if ckind_eqb (sg_kind s) SgRename then Some (sg_q s) else None in
+  match target with
+  | Some p =>
+      match rev p with
+      | i :: wsr => if path_eqb (rev wsr) (q_ws c) && id_match i && str_mem i (requested c) then Some i else None
+      | [] => None
+      end
+  | None => None
+  end.
+
 Fixpoint created_before (c : case_C12) (sched : list (nat * csig)) (n : nat) (acc : list str) : list str :=
   match n, sched with
   | S n', (_, s) :: rest =>
       let acc' :=
-        match rev (sg_p s) with
-        | i :: wsr =>
-            if ckind_eqb (sg_kind s) SgMkdir && path_eqb (rev wsr) (q_ws c) && id_match i
-               && negb (str_mem i (job_dirs (q_pre c) (q_ws c))) && negb (str_mem i acc)
-            then i :: acc else acc
-        | [] => acc
+        match makes_job_dir c s with
+        | Some i => if negb (str_mem i (job_dirs (q_pre c) (q_ws c))) && negb (str_mem i acc) then i :: acc else acc
+        | None => acc
         end in
       created_before c rest n' acc'
   | _, _ => acc
